@@ -163,12 +163,40 @@ func schedRevalidateAfterRelock(c *Ctx) *RuleResult {
 			if !ok || info.Uses[id] != vobj || id.Pos() < relock.Pos() {
 				return true
 			}
+			isFresh := func(side ast.Expr) bool {
+				if ix, ok := ast.Unparen(side).(*ast.IndexExpr); ok && fieldOf(info, ix.X) == onm {
+					return true
+				}
+				// a variable holding a lookup made after re-locking
+				if sid, ok := ast.Unparen(side).(*ast.Ident); ok && info.ObjectOf(sid) != vobj {
+					for _, dc := range definingIndexLookups(u, sid) {
+						if fieldOf(info, dc.X) == onm && dc.Pos() > relock.Pos() {
+							return true
+						}
+					}
+				}
+				return false
+			}
+			// being overwritten is not a use
+			isLHS := false
+			for _, anc := range pathTo(u.Decl.Body, id) {
+				if as, ok := anc.(*ast.AssignStmt); ok {
+					for _, l := range as.Lhs {
+						if l == ast.Expr(id) {
+							isLHS = true
+						}
+					}
+				}
+			}
+			if isLHS {
+				return true
+			}
 			// the comparison with a fresh lookup itself
 			validated := false
 			for _, anc := range pathTo(u.Decl.Body, id) {
 				if be, ok := anc.(*ast.BinaryExpr); ok && (be.Op == token.EQL || be.Op == token.NEQ) {
 					for _, side := range []ast.Expr{be.X, be.Y} {
-						if ix, ok := ast.Unparen(side).(*ast.IndexExpr); ok && fieldOf(info, ix.X) == onm {
+						if isFresh(side) {
 							validated = true
 						}
 					}
@@ -177,7 +205,7 @@ func schedRevalidateAfterRelock(c *Ctx) *RuleResult {
 			for _, g := range flattenGuards(GuardsOf(info, u.Decl.Body, id)) {
 				if be, ok := ast.Unparen(g.Cond).(*ast.BinaryExpr); ok && g.Pos && be.Op == token.EQL {
 					for _, side := range []ast.Expr{be.X, be.Y} {
-						if ix, ok := ast.Unparen(side).(*ast.IndexExpr); ok && fieldOf(info, ix.X) == onm {
+						if isFresh(side) {
 							validated = true
 						}
 					}
@@ -1286,6 +1314,26 @@ func definingCalls(u *FuncUnit, id *ast.Ident) []*ast.CallExpr {
 			}
 			if call, ok := ast.Unparen(rhs).(*ast.CallExpr); ok {
 				out = append(out, call)
+			}
+		}
+		return true
+	})
+	return out
+}
+
+// definingIndexLookups: the map lookups `v, ok := m[k]` / `v := m[k]` that define the variable.
+func definingIndexLookups(u *FuncUnit, id *ast.Ident) []*ast.IndexExpr {
+	info := u.Info()
+	obj := info.ObjectOf(id)
+	var out []*ast.IndexExpr
+	ast.Inspect(u.Decl.Body, func(n ast.Node) bool {
+		as, ok := n.(*ast.AssignStmt)
+		if !ok || len(as.Rhs) != 1 || len(as.Lhs) == 0 {
+			return true
+		}
+		if lid, ok := as.Lhs[0].(*ast.Ident); ok && info.ObjectOf(lid) == obj {
+			if ix, ok := ast.Unparen(as.Rhs[0]).(*ast.IndexExpr); ok {
+				out = append(out, ix)
 			}
 		}
 		return true
